@@ -11,6 +11,7 @@ import sys
 import tempfile
 
 import optree
+from optree.registry import __GLOBAL_NAMESPACE as GLOBAL
 
 from vf import gen, harness, refmodel, same, verdict
 from vf import universe as U
@@ -137,6 +138,15 @@ def run_shard(sink, tier, seed, shard):  # noqa: C901
                 sink.check(not diffk, 'same-process/observation/' + ','.join(diffk), 'loads(dumps(s)) has the same repr, paths, accessors, entries, children and unflatten result', ident,
                            lambda: {k: (base[k], ob[k]) for k in diffk})
             if pickles:
+                # loading while the process is in the other dict-order mode must not re-order anything
+                for mode_ns in (GLOBAL, o.namespace or U.NS):
+                    with optree.dict_insertion_ordered(not o.insertion, namespace=mode_ns):
+                        back = pickle.loads(pickles[max(pickles)])
+                        ob = obs(back)
+                    diffk = [k for k in base if base[k] != ob[k]]
+                    sink.check(back == s and hash(back) == hash(s) and not diffk, 'same-process/other-dict-mode/' + ','.join(diffk),
+                               'a treespec loaded while the other dict-order mode is active is the same treespec', ident, lambda: {k: (base[k], ob[k]) for k in diffk})
+                    sink.count('loads-under-other-mode')
                 # treespecs inside a larger pickle (memoised, shared key objects) and next to their own leaves
                 try:
                     bundle = pickle.loads(pickle.dumps([s, (s, {'k': s}), s.children(), s.paths()], pickle.HIGHEST_PROTOCOL))
